@@ -31,17 +31,18 @@ func init() {
 }
 
 type c13Req struct {
-	V6    bool
-	Ident uint16
-	Seq   uint16
-	Len   int
-	Fill  int
-	Dst   int   // 0 own A1, 1 own A2, 2 foreign, 3 unassigned
-	Cuts  []int // fragment boundaries in payload bytes of the ICMP message (8-aligned); nil = unfragmented
-	Order []int // arrival order of fragments
-	Split int   `json:",omitempty"` // > 0: the (unfragmented) packet is handed over as two views cut at this byte
-	Flip  int   `json:",omitempty"` // > 0: bit Flip-1 of the ICMP message is inverted in transit (its checksum no longer verifies)
-	Trunc int   `json:",omitempty"` // > 0: the ICMP message is only Trunc bytes long (shorter than an echo header), checksum correct
+	V6        bool
+	Ident     uint16
+	Seq       uint16
+	Len       int
+	Fill      int
+	Dst       int   // 0 own A1, 1 own A2, 2 foreign, 3 unassigned
+	Cuts      []int // fragment boundaries in payload bytes of the ICMP message (8-aligned); nil = unfragmented
+	Order     []int // arrival order of fragments
+	Split     int   `json:",omitempty"` // > 0: the (unfragmented) packet is handed over as two views cut at this byte
+	Flip      int   `json:",omitempty"` // > 0: bit Flip-1 of the ICMP message is inverted in transit (its checksum no longer verifies)
+	Trunc     int   `json:",omitempty"` // > 0: the ICMP message is only Trunc bytes long (shorter than an echo header), checksum correct
+	NoReplyOK bool  `json:",omitempty"` // the reply cannot be sent (it would not fit an IP packet): no answer is demanded for this one
 }
 
 // damaged: not an echo request anybody sent; it must not be answered.
@@ -255,7 +256,7 @@ func (w *c13World) round(reqs []c13Req, burst bool) *c13Fail {
 		if q.Dst >= 2 && answered[i] > 0 {
 			return &c13Fail{"answered-foreign", fmt.Sprintf("a request addressed to %x (not an address of the stack) was answered", w.dst(q))}
 		}
-		if q.Dst <= 1 && answered[i] == 0 && pending < 10 {
+		if q.Dst <= 1 && answered[i] == 0 && pending < 10 && !q.NoReplyOK {
 			key := "unanswered"
 			if q.V6 && q.Cuts != nil {
 				key = "unanswered-fragmented-icmpv6" // D11: no IPv6 reassembly
@@ -400,6 +401,13 @@ func c13Run(job, tier string, deadline time.Time) *engine.Result {
 			do(same, true)
 		}
 	case "frag":
+		if !v6 {
+			// a request whose reply cannot be sent (reassembled ICMP message of 65536 bytes: the
+			// reply would exceed an IP packet) must not stop later requests from being answered
+			big := c13Req{Ident: 9, Seq: 1, Len: 65528, Cuts: []int{65512}, Order: []int{0, 1}, NoReplyOK: true}
+			do([]c13Req{big, {Ident: 9, Seq: 2, Len: 16}, {Ident: 9, Seq: 3, Len: 40}}, false)
+			do([]c13Req{{Ident: 9, Seq: 4, Len: 16}}, false)
+		}
 		for _, total := range []int{2200, 3700} {
 			msgLen := total + 8
 			var cutsets [][]int
